@@ -35,6 +35,20 @@ def rfc_rgb(pft, pix):
     return ((v >> rs & rm) * 255 // rm, (v >> gs & gm) * 255 // gm, (v >> bs & bm) * 255 // bm)
 
 
+def rfc_cpixel(pft, pix):
+    """RFC 6143 7.7.5 CPIXEL: 3 bytes if bpp = 32, depth <= 24 and all colour bits are in the least OR the most significant
+    3 bytes of the pixel value; the byte(s) dropped are the ones that carry no colour"""
+    bpp, depth, be, tc, rm, gm, bm, rs, gs, bs = pft
+    if bpp != 32 or depth > 24:
+        return pix
+    mask = (rm << rs) | (gm << gs) | (bm << bs)
+    if mask < (1 << 24):
+        return pix[1:] if be else pix[:3]
+    if mask & 0xFF == 0:
+        return pix[:3] if be else pix[1:]
+    return pix
+
+
 def gen_block(r):
     base = list(pf_tuple(r.choice(ACCEPTED_PF)))
     k = r.random()
@@ -201,12 +215,29 @@ def run(ctx):
                 i = next((i for i in range(len(pix)) if scr is None or scr[2][3 * i:3 * i + 3] != wantpx[3 * i:3 * i + 3]), 0)
                 ctx.violate("channel-mapping", dict(rp, observed="pixel bytes %s in format %r rendered as %r, RFC says %r" % (
                     hx(pix[i]), inforce, scr and tuple(scr[2][3 * i:3 * i + 3]), tuple(wantpx[3 * i:3 * i + 3]))))
+            if 16 in encs and (len(meta) % 2 == 0):
+                # ... and the same probe pixels, in reverse order, as one raw ZRLE tile: agreement on the pixel format includes
+                # agreement on its compressed form (CPIXEL)
+                import zlib
+                z = zlib.compressobj()
+                rev = pix[::-1]
+                comp = z.compress(bytes([0]) + b"".join(rfc_cpixel(inforce, q) for q in rev)) + z.flush(zlib.Z_SYNC_FLUSH)
+                upd2 = struct.pack("!BxH", 0, 1) + struct.pack("!HHHHi", 0, 0, len(rev), 1, 16) + struct.pack("!I", len(comp)) + comp
+                per2 = per2 + feed_impl(c, trace, [upd2])
+                chunks.append(upd2)
+                scr = screen_rgb(c)
+                wantpx = b"".join(bytes(rfc_rgb(inforce, q)) for q in rev)
+                ctx.count("zrle_probe_rows")
+                if scr is None or scr[2] != wantpx:
+                    i = next((i for i in range(len(rev)) if scr is None or scr[2][3 * i:3 * i + 3] != wantpx[3 * i:3 * i + 3]), 0)
+                    ctx.violate("channel-mapping-zrle", dict(rp, observed="pixel %s in format %r sent as ZRLE CPIXEL %s rendered as %r, RFC says %r" % (
+                        hx(rev[i]), inforce, hx(rfc_cpixel(inforce, rev[i])), scr and tuple(scr[2][3 * i:3 * i + 3]), tuple(wantpx[3 * i:3 * i + 3]))))
         scr = screen_rgb(c)
         stok = "none" if scr is None else "%d %d %d" % (scr[0], scr[1], fnv64(scr[2]))
         ctx.case(dict(rp["input"], after_serverinit=after[:4]) if si < 3 else None, key=(hx(block), ver, tuple(sorted(opts.items())), pref, kind))
         ctx.count("native_accepted" if native in accepted else "native_replaced")
         ctx.count("version_%d.%d" % ver)
-        flat = [t for q in per for t in q] + ([t for q in per2 for t in q] if len(chunks) == 3 else [])
+        flat = [t for q in per for t in q] + ([t for q in per2 for t in q] if len(chunks) >= 3 else [])
         ml = model_lines(kind, dict(opts, encoding=pref), zlog, chunks) + ["rfb-screen"]
         meta.append((len(lines), len(zlog), len(chunks), flat, stok, rp))
         lines += ml
